@@ -72,7 +72,7 @@ ROWS = [
     row('channel::Channel::queue_declare_nowait', ['self', 'queue', 'options'], 'nowait', 'self', Q, 'Declare',
         qdeclare('queue', 'false', 'true'), None,
         'Ok(queue::Queue{channel: self, consumer_count: None, message_count: None, name: queue})',
-        pre=['assert!((queue != ""), "cannot asynchronously declare auto-named queues")']),
+        pre=['assert!(!is_empty(queue), "cannot asynchronously declare auto-named queues")']),
     row('channel::Channel::queue_declare_passive', ['self', 'queue'], 'call', 'self', Q, 'Declare',
         qdeclare('queue', 'true', 'false', None), Q + 'DeclareOk', QUEUE_RET),
     row('channel::Channel::basic_get', ['self', 'queue', 'no_ack'], 'get', 'self', B, 'Get',
